@@ -52,6 +52,9 @@ CHECKS = {
  "C08": dict(cat="model_checking", tech="TLA+ two-word slot model (TTSlot.tla, TLC exhaustive) + index lemma (TTIndex.tla, Apalache, all sizes) + TLC validation of traces of the real table (Tr_TT.tla)",
    text="TTSlot.tla models a slot as two independently ordered word accesses per store/load with XOR as symmetric difference; TLC exhausts 2 writers x 1 prober and proves HitIsAUnit (and refutes the un-xored variant as a vacuity control). TTIndex.tla states the index function for arbitrary sizes; Apalache discharges IndexSafe over unbounded integers. On the real TranspositionTable TLC validates: every distinct result of ~10^8 concurrent stores/probes by 2..16 threads on <=3 buckets is a catalogue unit stored for exactly that key; index records for 39 table sizes (1..256 MB, non powers of two, the reduced size with a resident tablebase) x boundary key bits equal the formula and are safe; mate scores stored at ply p and read at ply q shift by q-p; a resident tablebase region is byte-identical after 6M ordinary stores.",
    note="Trusted: TLC, Apalache (index lemma), TTSlot/TTIndex/Tr_TT specs, harness/h_tt.cpp. Hardware reordering of relaxed stores is covered by the model only."),
+ "C19": dict(cat="model_checking", tech="TLA+ fixed-point specification of the book graph equations (BookGraph.tla) + TLC validation of graph dumps of the real BookBuild::Book",
+   text="BookGraph.tla transcribes the defining equations of bookbuild.hpp (mutually consistent links, shortest depth, negamax with INVALID/IGNORE/mate negation and covered dropout moves, expansion costs for both book players, path errors over all parents). Seeded operation sequences (extend under random nodes incl. transpositions with extra parents and pre-existing children, search results incl. mate/0/IGNORE/INVALID, pending marks, PGN import, save/load) are applied to the real Book; after every operation (every k-th for books of hundreds of nodes) the whole graph is dumped and TLC evaluates FixedPoint on it, and requires a reloaded book to equal the saved graph.",
+   note="Trusted: TLC, BookGraph.tla, harness/h_book.cpp (reads nodes through public getters and the friend class name BookBuildTest). One genuine defect (stale path error) found and fixed."),
 }
 
 NOT_APPLICABLE = {
